@@ -158,7 +158,10 @@ def run_enum_serialize(rep, prog):
         for name in LISTED_ENUM:
             ident = LISTED_IDENT[name]
             if ident not in decl.index:
-                rep.violation('C10:enum:serialize', f'{cfg}: the generated enum has no variant {ident} for the listed value {name.decode()}', {})
+                def bat(name=name):
+                    r = replay([{'op': 'gen_enum', 'text_hex': name.hex()}])[0]
+                    return [] if r.get('consistent') and r.get('default') not in (None, 'err') else [f'{name!r}: {r}']
+                rep.structural('C10:enum:serialize', f'{cfg}: the generated enum has no variant {ident} for the listed value {name.decode()}', {}, bat)
                 continue
             i = decl.index[ident]
             st = St()
